@@ -71,7 +71,8 @@ ClientBase == [BaseCfg EXCEPT !.mode = "client"]
 ClientBody(w) == LET ms == Msgs(OneShot([ClientBase EXCEPT !.maxBody = Huge], w, TRUE).ev) IN
                  IF ms = <<>> THEN 0 ELSE Len(ms[Len(ms)].body)
 ClientCfgs(w) ==
-    {[ClientBase EXCEPT !.head = h, !.decompress = dz, !.gz = IF dz THEN GzTable ELSE <<>>] : h \in GenHeads, dz \in BOOLEAN}
+    {[ClientBase EXCEPT !.head = hd.h, !.decompress = hd.dz, !.gz = IF hd.dz THEN GzTable ELSE <<>>] :
+        hd \in {x \in [h : GenHeads, dz : BOOLEAN] : ~(x.h /\ x.dz)}}
     \cup {[ClientBase EXCEPT !.maxBody = Nat0(ClientBody(w) + d)] : d \in LimDeltas}
 GzClientCfgs(g) ==
     {[ClientBase EXCEPT !.decompress = TRUE, !.gz = GzTable], [ClientBase EXCEPT !.decompress = FALSE, !.gz = GzTable],
